@@ -478,4 +478,14 @@ def _replay_state(f):
     return all(x['key'] != f['key'] for x in r['failures'])
 
 
-BOUNDED = [Bounded('state_snapshots_gating_entities_caches_threads', state_preservation, _replay_state)]
+def state_preservation_isolated(tier, seed):
+    from .bounded import run_isolated
+    return run_isolated(state_preservation, tier, seed, 240 if tier == 'quick' else 900, 'state snapshots / gating / entities / caches / threads')
+
+
+def _replay_state_isolated(f):
+    r = state_preservation_isolated('quick', 0)
+    return all(x['key'] != f['key'] for x in r['failures'])
+
+
+BOUNDED = [Bounded('state_snapshots_gating_entities_caches_threads', state_preservation_isolated, _replay_state_isolated)]
